@@ -282,8 +282,25 @@ def run(ctx):
         first = stmts_of(wb)[0] if stmts_of(wb) else {}
         okw = first.get('kind') == 'IfStmt' and nf(if_parts(first)[0]) in ('(0 <= this.exit_status)', '(this.exit_status >= 0)') and any(r.get('kind') == 'ReturnStmt' and nf(kids(r)[0]) == 'this.exit_status' for r in walk(if_parts(first)[1]))
         wp = [c for c in walk(wb) if c.get('kind') == 'CallExpr' and call_name(c) == 'waitpid']
-        okw = okw and len(wp) == 1 and nf(call_args(wp[0])[0]) == 'this.child_pid' and nf(call_args(wp[0])[1]) == '&this.exit_status'
-        ctx.check(okw, R, 'wait|caches-status', wait, 'wait() returns the cached status once the child was reaped and passes &exit_status to waitpid', 'wait() status caching changed')
+        direct = len(wp) == 1 and nf(call_args(wp[0])[0]) == 'this.child_pid' and nf(call_args(wp[0])[1]) == '&this.exit_status'
+        # or through a local: waitpid(pid, &status, ..) and `exit_status = status` on the path where waitpid reaped (ret > 0)
+        via_local = False
+        if len(wp) == 1 and not direct and nf(call_args(wp[0])[0]) == 'this.child_pid':
+            a1 = strip(call_args(wp[0])[1])
+            lv = ref_decl(strip(kids(a1)[0])) if a1.get('kind') == 'UnaryOperator' and a1.get('opcode') == '&' else None
+            asg = [x for x in walk(wb) if x.get('kind') == 'BinaryOperator' and x.get('opcode') == '=' and nf(x['inner'][0]) == 'this.exit_status' and lv is not None and (ref_decl(x['inner'][1]) or {}).get('id') == lv.get('id')]
+            rv = enclosing(wp[0], ('VarDecl',))
+            if len(asg) == 1 and rv is not None:
+                reaped = any(r_ and nf(r_[0]) == rv.get('name') and ((r_[1] == '>' and nf(r_[2]) == '0') or (r_[1] in ('==', '!=') and False)) for r_ in [relation(n_, p_) for n_, p_ in atoms(path_facts(asg[0]))]) or \
+                    any(r_ and nf(r_[0]) == rv.get('name') and r_[1] == '==' and nf(r_[2]) == 'this.child_pid' for r_ in [relation(n_, p_) for n_, p_ in atoms(path_facts(asg[0]))])
+                via_local = reaped
+            if not via_local and len(asg) >= 1:
+                ctx.undecided(R, 'wait|caches-status', wait, 'the status travels through a local; the store into exit_status is not under a `ret > 0` test this rule reads')
+                okw = None
+        if okw is not None:
+            okw = okw and (direct or via_local)
+        if okw is not None:
+          ctx.check(okw, R, 'wait|caches-status', wait, 'wait() returns the cached status once the child was reaped and passes &exit_status to waitpid', 'wait() status caching changed')
         ck = [x for x in walk(rb) if x.get('kind') == 'IfStmt' and any((ref_decl(y) or {}).get('name') == 'check' for y in walk(if_parts(x)[0]))]
         okk = len(ck) == 1 and nf(if_parts(ck[0])[0]) in ('(check && sp.wait())', '(check && (sp.wait() != 0))', '(check && (0 != sp.wait()))') and any(t.get('kind') == 'CXXThrowExpr' for t in walk(if_parts(ck[0])[1]))
         ctx.check(okk, R, 'run_process|check-raw-status', ck[0] if ck else runp, 'check=true throws iff the raw wait status is non-zero',
